@@ -235,8 +235,12 @@ def setPeriod (s : State) (sender : String) (tenant : Nat) (period : Nat) : SRes
 
 /-! ### payout -/
 
-/-- recipients with a non-null address -/
-def validRcpts (r : Rec) : List Recipient := r.rcpt.filter (fun x => !hexAddrIsNull x.addr)
+/-- an address a payout can go to: not the zero address, and not a module account (the bank refuses those as receivers; `tryPayout`
+leaves them out like the zero address) -/
+def payable (a : Str) : Bool := !hexAddrIsNull a && (moduleOfHex a).isNone
+
+/-- recipients that can be paid -/
+def validRcpts (r : Rec) : List Recipient := r.rcpt.filter (fun x => payable x.addr)
 
 /-- the weight sum is accumulated in a `uint32` -/
 def weightSum (rs : List Recipient) : Nat := (rs.foldl (fun acc x => acc + x.weight) 0) % 4294967296
